@@ -1,23 +1,66 @@
 ----------------------------- MODULE DispatchMC -----------------------------
-(* Model-checking instances of Dispatch: constant values that cannot be written in a .cfg *)
+(* Model-checking instances of Dispatch: constant values that cannot be written in a .cfg, and the   *)
+(* plan-driven exploration used for S->C (several dispatcher configurations, each with its own      *)
+(* bounds and operation classes, enumerated by one TLC run).                                         *)
 EXTENDS Dispatch
+
+CONSTANT Plans   \* set of [cfg, mh, mc, ops]: configuration, bound on the history, bound on the registered tuples,
+                 \* operation classes.  checks/c17.py writes a root module that defines the set (RunPlans).
 KMapDyn     == {"map_dyn"}
 KMapStatic  == {"map_static"}
 KFastDyn    == {"fast_dyn"}
 KFastStatic == {"fast_static"}
+KRawMap     == {"raw_map"}
+KRawFast    == {"raw_fast"}
+KVMapDyn    == {"vmap_dyn"}
+KVFastDyn   == {"vfast_dyn"}
 KMaps       == {"map_dyn", "map_static"}
 KFasts      == {"fast_dyn", "fast_static"}
+KMapFast    == {"map_dyn", "fast_static"}
 KAll        == {"map_dyn", "map_static", "fast_dyn", "fast_static"}
 KNone       == {"none"}
 OpsTable     == {"insert2", "erase", "dispatch"}
 OpsTableNoErase == {"insert2", "dispatch"}
+OpsTableClone == {"insert2", "erase", "dispatch", "clone"}
+OpsHistTable == {"insert2", "erase", "clone"}
 OpsHistIns   == {"insert"}
 OpsHistInsEr == {"insert", "erase"}
-OpsSimIns    == {"insert", "dispatch"}
-OpsSimInsEr  == {"insert", "erase", "dispatch"}
+OpsHistInsClone   == {"insert", "clone"}
+OpsHistInsErClone == {"insert", "erase", "clone"}
+OpsSimIns    == {"insert", "dispatch", "clone"}
+OpsSimInsEr  == {"insert", "erase", "dispatch", "clone"}
 OpsStateless == {"static", "accept", "cyclic"}
-OpsAll       == {"insert2", "erase", "dispatch", "static", "accept", "cyclic"}
+OpsAll       == {"insert2", "erase", "dispatch", "clone", "static", "accept", "cyclic"}
+NoPlans   == {}
+ExamplePlans == {[cfg |-> [kind |-> "fast_static", ar |-> 2, nx |-> 1, k |-> 3, fl |-> "exc"], mh |-> 3, mc |-> 99, ops |-> {"insert"}],
+                 [cfg |-> [kind |-> "map_dyn", ar |-> 1, nx |-> 0, k |-> 2, fl |-> "exc"], mh |-> 3, mc |-> 99, ops |-> {"insert", "erase", "clone"}]}
 ModeNone  == "none"
 ModeHist  == "hist"
 ModeEdges == "edges"
+
+PlanOf == CHOOSE p \in Plans : p.cfg = cfg
+PC(x)  == x \in PlanOf.ops
+PInit ==
+    /\ cfg \in {p.cfg : p \in Plans}
+    /\ CfgOK(cfg)
+    /\ reg = ZeroReg(cfg.ar, cfg.k)
+    /\ reg2 = ZeroReg(cfg.ar, cfg.k)
+    /\ has2 = FALSE
+    /\ seen = {}
+    /\ hist = <<>>
+    /\ last = [op |-> "Init", a |-> NoArg, res |-> Void]
+    /\ pre = [reg |-> reg, reg2 |-> reg2, has2 |-> has2]
+PNext ==
+    \/ PC("insert")   /\ \E d \in SlotsLive, t \in MyTuples : Insert(d, t, Len(hist) + 1)
+    \/ PC("insert2")  /\ \E d \in SlotsLive, t \in MyTuples, h \in 1..2 : Insert(d, t, h)
+    \/ PC("erase")    /\ \E d \in SlotsLive, t \in MyTuples : Erase(d, t)
+    \/ PC("dispatch") /\ \E d \in SlotsLive, os \in ObjTuples(cfg.ar, cfg.k), xs \in XsDomain(cfg.nx) : Dispatch(d, os, xs)
+    \/ PC("clone")    /\ ((\E how \in CloneHows : Clone(how)) \/ (\E how \in TakeHows : Take(how)) \/ Drop2)
+PSpec  == PInit /\ [][PNext]_vars
+PBound == Len(hist) <= PlanOf.mh /\ Cardinality(Registered) <= PlanOf.mc /\ Cardinality(Registered2) <= PlanOf.mc
+PEmit ==
+    /\ (EmitMode = "hist" /\ Len(hist') = PlanOf.mh /\ Len(hist) < PlanOf.mh) =>
+           PrintT("@H@" \o ToJson([cfg |-> cfg', hist |-> hist']))
+    /\ (EmitMode = "edges") =>
+           PrintT("@E@" \o ToJson([cfg |-> cfg, p |-> Tab, l |-> [op |-> last'.op, a |-> last'.a]]))
 =============================================================================
